@@ -258,7 +258,8 @@ class Check:
         if os.environ.get('VERIF_KEEP_EVIDENCE'):   # developer mutation runs must not overwrite real evidence
             d = ROOT / 'replays' / '_scratch_evidence'
         d.mkdir(parents=True, exist_ok=True)
-        p = d / f'{self.pid}.json'
+        # developer runs of one property may overlap (mutation / seed regression tools): one scratch file per process
+        p = d / (f'{self.pid}.{os.getpid()}.json' if os.environ.get('VERIF_KEEP_EVIDENCE') else f'{self.pid}.json')
         p.write_text(json.dumps(ev, indent=1, default=repr))
         try:
             import jsonschema
